@@ -29,6 +29,14 @@ impl<TI: TermIndex + Default> GenericLightGraph<TI> {
     }
 }
 
+#[cfg(feature = "verif_hooks")]
+impl<TI: TermIndex> GenericLightGraph<TI> {
+    /// Verification hook (only with feature `verif_hooks`): the term index of this store.
+    pub fn verif_term_index(&self) -> &TI {
+        &self.terms
+    }
+}
+
 impl<TI: TermIndex> Graph for GenericLightGraph<TI> {
     type Triple<'x>
         = [<TI::Term as Term>::BorrowTerm<'x>; 3]
@@ -164,6 +172,14 @@ impl<TI: TermIndex + Default> GenericFastGraph<TI> {
             pos: BTreeSet::new(),
             osp: BTreeSet::new(),
         }
+    }
+}
+
+#[cfg(feature = "verif_hooks")]
+impl<TI: TermIndex> GenericFastGraph<TI> {
+    /// Verification hook (only with feature `verif_hooks`): the term index of this store.
+    pub fn verif_term_index(&self) -> &TI {
+        &self.terms
     }
 }
 
